@@ -96,7 +96,7 @@ type c01Recv struct {
 
 // c01Expect is the specification model of what a consumer joining before message index join receives
 // (indices into the published list): prologue, cached GOPs, then the live run.
-func c01Expect(kinds []int, join int, gopNum int) []int {
+func c01Expect(kinds []int, join int, gopNum int, pub []base.RtmpMsg) []int {
 	meta, vsh, ash := -1, -1, -1
 	hasVideo := false
 	var gops [][]int
@@ -105,6 +105,9 @@ func c01Expect(kinds []int, join int, gopNum int) []int {
 		case kMeta:
 			meta = i
 		case kVsh:
+			if vsh >= 0 && !c01Eq(pub[vsh].Payload, pub[i].Payload) {
+				gops = nil // frames cached under another sequence header are not replayed
+			}
 			vsh = i
 			hasVideo = true
 		case kAsh:
@@ -148,24 +151,17 @@ func c01Expect(kinds []int, join int, gopNum int) []int {
 	return exp
 }
 
-// c01Check compares a consumer's decoded log with the specification model, then checks the model's
-// output itself against the decodable-start clauses (C02).
+// c01Check (C01) compares a consumer's decoded log with the specification model, message by message,
+// and checks that the frames form one contiguous run.
 func c01Check(who string, got []c01Recv, pub []base.RtmpMsg, kinds []int, joinAt int, gopNum int) {
-	exp := c01Expect(kinds, joinAt, gopNum)
+	exp := c01Expect(kinds, joinAt, gopNum, pub)
 	vrt.Assert(len(got) == len(exp), who+": number of messages received equals the model (nothing duplicated, nothing skipped)")
 	if len(got) != len(exp) {
 		return
 	}
 	for i, e := range exp {
-		p := pub[e]
-		same := vrt.And(got[i].typ == p.Header.MsgTypeId, got[i].ts == p.Header.TimestampAbs)
-		same = vrt.And(same, len(got[i].payload) == len(p.Payload))
-		for k := 0; k < len(p.Payload) && k < len(got[i].payload); k++ {
-			same = vrt.And(same, got[i].payload[k] == p.Payload[k])
-		}
-		vrt.Assert(same, who+": message equals the published message: type, millisecond timestamp, payload bytes")
+		vrt.Assert(c01Same(got[i], pub[e]), who+": message equals the published message: type, millisecond timestamp, payload bytes")
 	}
-	// C01: the frames received are one contiguous run of the published frames up to the last one
 	var pf, gf []int
 	for j := range pub {
 		if c01IsFrame(kinds[j]) {
@@ -182,40 +178,99 @@ func c01Check(who string, got []c01Recv, pub []base.RtmpMsg, kinds []int, joinAt
 	for i := 0; a >= 0 && i < len(gf); i++ {
 		vrt.Assert(gf[i] == pf[a+i], who+": frames form one contiguous run ending with the last published frame")
 	}
-	// C02: for every frame received, the sequence header / metadata in force when it was published was received before it
-	for pos, e := range exp {
-		if !c01IsFrame(kinds[e]) {
-			continue
+}
+
+func c01Same(g c01Recv, p base.RtmpMsg) bool {
+	same := vrt.And(g.typ == p.Header.MsgTypeId, g.ts == p.Header.TimestampAbs)
+	same = vrt.And(same, len(g.payload) == len(p.Payload))
+	for k := 0; k < len(p.Payload) && k < len(g.payload); k++ {
+		same = vrt.And(same, g.payload[k] == p.Payload[k])
+	}
+	return same
+}
+
+// c01KindOf classifies a received message by its type id and first payload bytes (FLV/RTMP tag layout).
+func c01KindOf(g c01Recv) int {
+	switch g.typ {
+	case base.RtmpTypeIdMetadata:
+		return kMeta
+	case base.RtmpTypeIdAudio:
+		if len(g.payload) >= 2 && g.payload[0]>>4 == 10 && g.payload[1] == 0 {
+			return kAsh
 		}
-		need := -1
+		return kAraw
+	}
+	if len(g.payload) >= 2 && g.payload[0] == 0x17 && g.payload[1] == 0 {
+		return kVsh
+	}
+	if len(g.payload) >= 1 && g.payload[0]>>4 == 1 {
+		return kVkey
+	}
+	return kVinter
+}
+
+// c02Check (C02) looks only at the consumer's decoded log: the first video frame is a key frame, and
+// every frame is preceded in the log by a sequence header with the content of the one in force when
+// the frame was published.
+func c02Check(who string, got []c01Recv, pub []base.RtmpMsg, kinds []int) {
+	gk := make([]int, len(got))
+	for i := range got {
+		gk[i] = c01KindOf(got[i])
+	}
+	for i := range got {
+		if gk[i] == kVkey {
+			break
+		}
+		vrt.Assert(gk[i] != kVinter, who+": the first video frame received is a key frame")
+	}
+	// map each received frame to its published index: frames are received in publication order, so the
+	// k-th received frame from the end is the k-th published frame from the end
+	var pf []int
+	for j := range pub {
+		if c01IsFrame(kinds[j]) {
+			pf = append(pf, j)
+		}
+	}
+	var gf []int
+	for i := range got {
+		if c01IsFrame(gk[i]) {
+			gf = append(gf, i)
+		}
+	}
+	if len(gf) > len(pf) {
+		return // duplication is C01's finding
+	}
+	a := len(pf) - len(gf)
+	for q, gi := range gf {
+		e := pf[a+q]
 		wantKind := kVsh
 		if kinds[e] == kAraw {
 			wantKind = kAsh
 		}
+		need := -1
 		for j := 0; j < e; j++ {
 			if kinds[j] == wantKind {
 				need = j
 			}
 		}
-		if need >= 0 {
-			seen := false
-			for q := 0; q < pos; q++ {
-				if exp[q] == need {
-					seen = true
-				}
-				if kinds[exp[q]] == wantKind && exp[q] > need {
-					seen = true
-				}
+		if need < 0 {
+			continue
+		}
+		// the last header of that kind received before this frame must have the content of pub[need]
+		last := -1
+		for i := 0; i < gi; i++ {
+			if gk[i] == wantKind {
+				last = i
 			}
-			vrt.Assert(seen, who+": each frame is preceded by the sequence header in force when it was published")
 		}
-	}
-	// C02: with video, the first video frame received is a key frame
-	for _, e := range exp {
-		if kinds[e] == kVkey {
-			break
+		vrt.Assert(last >= 0, who+": a sequence header precedes the frame")
+		if last >= 0 {
+			ok := vrt.And(len(got[last].payload) == len(pub[need].Payload), true)
+			for k := 0; k < len(pub[need].Payload) && k < len(got[last].payload); k++ {
+				ok = vrt.And(ok, got[last].payload[k] == pub[need].Payload[k])
+			}
+			vrt.Assert(ok, who+": each frame is preceded by a sequence header with the content of the one in force when it was published")
 		}
-		vrt.Assert(kinds[e] != kVinter, who+": the first video frame received is a key frame")
 	}
 }
 
@@ -289,7 +344,11 @@ func VerifC01Relay() {
 	for _, m := range rd.out {
 		got = append(got, c01Recv{typ: m.typ, ts: m.ts, payload: m.payload})
 	}
-	c01Check("rtmp", got, pub, kinds, jr, cfg.RtmpConfig.GopNum)
+	if vrt.Param("prop") == 2 {
+		c02Check("rtmp", got, pub, kinds)
+	} else {
+		c01Check("rtmp", got, pub, kinds, jr, cfg.RtmpConfig.GopNum)
+	}
 
 	// HTTP-FLV subscriber: writes[0] = HTTP response header, writes[1] = FLV header, then tags
 	vrt.Assert(len(fconn.Writes) >= 2 && len(fconn.Writes[1]) == 13 && fconn.Writes[1][0] == 'F', "flv: response header then FLV header")
@@ -303,6 +362,10 @@ func VerifC01Relay() {
 	for _, t := range tags {
 		gotf = append(gotf, c01Recv{typ: t.typ, ts: t.ts, payload: t.body})
 	}
-	c01Check("flv", gotf, pub, kinds, jf, cfg.HttpflvConfig.GopNum)
+	if vrt.Param("prop") == 2 {
+		c02Check("flv", gotf, pub, kinds)
+	} else {
+		c01Check("flv", gotf, pub, kinds, jf, cfg.HttpflvConfig.GopNum)
+	}
 	vrt.Cover("end")
 }
